@@ -156,6 +156,7 @@ class mm_reader {
                 is.clear(); is.str(line);
                 precondition(is >> n >> m >> nnz, format_error());
                 precondition(n >= 0 && m >= 0, format_error("negative size"));
+                precondition(!_symmetric || n == m, format_error("symmetric matrix is not square"));
             }
 
             if (row_beg < 0) row_beg = 0;
